@@ -12,7 +12,7 @@ EXPLANATION = (
     "bodies that assign Unpacker.iter are new_impl, use_up, read_data and read_raw, and in the latter two the new iterator is "
     "`rest.iter()` with `rest` the second half of split_at(iter.as_slice(), n).  R4 (mask/shift agreement of write_int and "
     "read_int): both sides use 6 payload bits in the first byte (mask 0x3f, shift 6) and 7 in the following ones (mask 0x7f, "
-    "shift 7 / 6 + 7*i), the sign in bit 6 and the extend flag in bit 7.  R4b: the padding test on the fifth byte masks exactly the bits that cannot carry value (0xf0, derived from 6 + 7k payload bits and a 31-bit magnitude).  R4c: the writer's extend flag is (remaining != 0) after the shift.  R2b: read_data / read_raw refuse exactly when available < needed.  R5: write_data converts the length with try_i32 and "
+    "shift 7 / 6 + 7*i), the sign in bit 6 and the extend flag in bit 7.  R4b: the padding test on the fifth byte masks exactly the bits that cannot carry value (0xf0, derived from 6 + 7k payload bits and a 31-bit magnitude).  R4c: the writer's extend flag is (remaining != 0) after the shift.  R2b: read_data / read_raw refuse exactly when available < needed.  R4d: OverlongIntEncoding is issued after the loop, for a zero *last* byte of a multi-byte encoding.  R5: write_data converts the length with try_i32 and "
     "reports CapacityError.  Not decided: the integer bijection on all 2^32 values, shortest-form canonicity and agreement with "
     "doc/int.md -- a data-dependent loop whose result is a number is outside a path-insensitive analysis."
 )
@@ -30,6 +30,7 @@ def run(ctx, rep):
     padding_mask(ctx.prog, rep)
     extend_flag(ctx.prog, rep)
     tight_length_guards(ctx.prog, rep)
+    overlong_warning(ctx.prog, rep)
 
 
 def _err_returns(body):
@@ -316,3 +317,31 @@ def tight_length_guards(prog, rep):
                    "refuses when available %s needed: %s" % ({"Le": "<=", "Gt": ">", "Ge": ">="}[cond],
                    "a field that ends exactly at the end of the buffer is rejected" if cond == "Le" else "the guard does not protect split_at"), b.loc(t.get("ln")))
     rep.floor(rule, n, 2, "length guards of read_data / read_raw")
+
+
+def overlong_warning(prog, rep):
+    """R4d: OverlongIntEncoding is about the *last* byte of a multi-byte encoding being zero (a shorter encoding exists); a zero
+    group in the middle of a canonical encoding (e.g. 1 << 13) is not overlong.  The warning is issued after the continuation
+    loop, under `more than one byte` and `last byte == 0` -- never inside the loop."""
+    rule = "R4d-overlong-warning"
+    r = prog.one(P + "read_int")
+    ir = IR(r)
+    loops_ = [set(c) for c in r.sccs()]
+    sites = []
+    for bi, t in r.calls():
+        if not (t.get("callee") or "").endswith("::warn"):
+            continue
+        e = ir.call_expr(bi, t)
+        if "OverlongIntEncoding" in show(strip_sites(e)):
+            sites.append((bi, t.get("ln")))
+    rep.floor(rule, len(sites), 1, "warn(OverlongIntEncoding) in read_int")
+    for bi, ln in sites:
+        inloop = any(bi in c for c in loops_)
+        conds = [(show(strip_sites(c)), rel, v) for c, rel, v, edge, dty in ir.edge_conditions(bi)]
+        last_zero = any(cs.startswith("Eq(") and cs.endswith(", 0)") and ((rel == "==" and v == 1) or (rel == "notin" and 0 in v)) for cs, rel, v in conds)
+        multi = any(cs.startswith("Gt(") and cs.endswith(", 1)") and ((rel == "==" and v == 1) or (rel == "notin" and 0 in v)) for cs, rel, v in conds)
+        ok = (not inloop) and last_zero and multi
+        rep.ob(rule, "issued after the loop for a zero last byte", ok,
+               "warn(OverlongIntEncoding) only when len > 1 and the last byte read is 0" if ok else
+               "the overlong warning %s: canonical encodings with a zero group before their last byte would be warned about"
+               % ("is issued inside the continuation loop" if inloop else "is not conditioned on `len > 1 && last byte == 0` (%s)" % conds[:3]), r.loc(ln))
